@@ -314,8 +314,8 @@ pub open spec fn rebuilt(ids: IdLists, tours: Map<VehicleIdx, Tour>, net: Networ
     spec_new_fast(ids[vt]@, tours, net)
 }
 impl Schedule {
-    /// the precondition of recompute_transitions_and_violation_fast
-    pub open spec fn rc_pre(&self, trs: Map<VehicleTypeIdx, Transition>, mv: int, ids: IdLists, tours: Map<VehicleIdx, Tour>, list: Seq<VehicleTypeIdx>) -> bool {
+    /// the precondition of recompute_transitions_and_violation_fast but for the magnitude of the rebuilt transitions
+    pub open spec fn rc_base(&self, trs: Map<VehicleTypeIdx, Transition>, mv: int, ids: IdLists, tours: Map<VehicleIdx, Tour>, list: Seq<VehicleTypeIdx>) -> bool {
         let vts = sched_types(self);
         // C10: there is one transition per vehicle type of the network (`.expect("Each vehicle type must be a key in transitions.")`)
         &&& vts.no_duplicates()
@@ -330,6 +330,22 @@ impl Schedule {
         // TView::lemma_bounds), and there are at most 2^18 vehicles in old transitions and id lists together
         &&& forall|vt: VehicleTypeIdx| #[trigger] trs.contains_key(vt) ==> 0 <= trs[vt].total_maintenance_violation <= trs[vt].total_len() * vehicle_bound()
         &&& cap_sum(trs, ids, vts) <= 2 * max_vehicles()
+    }
+    /// the precondition of recompute_transitions_and_violation_fast
+    pub open spec fn rc_pre(&self, trs: Map<VehicleTypeIdx, Transition>, mv: int, ids: IdLists, tours: Map<VehicleIdx, Tour>, list: Seq<VehicleTypeIdx>) -> bool {
+        &&& self.rc_base(trs, mv, ids, tours, list)
+        // A-counter (magnitude): the violation of each rebuilt transition is at most 2^41 per listed vehicle (as for a
+        // transition that is consistent with tours whose counters are within +-2^40; `spec_new_fast` is uninterpreted, so no
+        // caller can discharge this: it is an assumption stated as a precondition)
+        &&& forall|i: int| 0 <= i < list.len() ==> Schedule::rebuilt_small(ids, tours, *self.network, #[trigger] list[i])
+    }
+    /// A-counter (magnitude) for all vehicle types of the network and the schedule's id lists
+    pub open spec fn rebuilt_all_small(&self, tours: Map<VehicleIdx, Tour>) -> bool {
+        forall|i: int| 0 <= i < sched_types(self).len() ==> Schedule::rebuilt_small(self.vehicle_ids_grouped_and_sorted@, tours, *self.network, #[trigger] sched_types(self)[i])
+    }
+    /// the tour maps reassign_end_depots_greedily can produce
+    pub open spec fn all_end_reassigned(&self, t: Map<VehicleIdx, Tour>) -> bool {
+        t.dom() == self.tours@.dom() && forall|v: VehicleIdx| #[trigger] self.tours@.contains_key(v) ==> self.end_reassigned(v, t[v])
     }
     /// the state after the first k listed types have been rebuilt
     pub open spec fn rc_inv(&self, trs0: Map<VehicleTypeIdx, Transition>, trs: Map<VehicleTypeIdx, Transition>, ids: IdLists, tours: Map<VehicleIdx, Tour>,
@@ -346,7 +362,7 @@ impl Schedule {
         &&& forall|vt: VehicleTypeIdx| #[trigger] trs.contains_key(vt) ==>
                 trs[vt] == (if list.contains(vt) { rebuilt(ids, tours, *self.network, vt) } else { trs0[vt] })
     }
-    /// magnitude of a rebuilt transition's violation (ensured by the stub of Transition::new_fast)
+    /// magnitude of a rebuilt transition's violation
     pub open spec fn rebuilt_small(ids: IdLists, tours: Map<VehicleIdx, Tour>, net: Network, vt: VehicleTypeIdx) -> bool {
         0 <= rebuilt(ids, tours, net, vt).total_maintenance_violation <= ids[vt]@.len() * vehicle_bound()
     }
@@ -425,4 +441,498 @@ pub proof fn lemma_replaced_same_activities(net: &Network, o: &Tour, t: &Tour)
     requires depots_replaced(net, o, t), o.nodes@.len() >= 2,
     ensures same_activities(o, t),
 {
+}
+/// C09 for a depot-only change: replacing the start depot changes the costs by the difference of the first leg's
+/// costs, which is small (mirror image of lemma_end_depot_costs, env/schedule_shim.vs)
+pub proof fn lemma_start_depot_costs(t: &Tour, nt: &Tour, s: NodeIdx)
+    requires
+        t.wf(), !t.is_dummy, t.caches_ok(), tour_len_ok(t.nodes@),
+        t.network.has(s), t.network.sp_node(s) is StartDepot,
+        nt.nodes@ == t.nodes@.update(0, s), nt.network == t.network, nt.caches_ok(),
+    ensures
+        -leg_cost_bound() <= nt.costs - t.costs <= leg_cost_bound(),
+{
+    let net = &t.network;
+    let old = t.nodes@;
+    let tail = old.subrange(1, old.len() as int);
+    assert(old =~= seq![old[0]] + tail);
+    assert(nt.nodes@ =~= seq![s] + tail);
+    lemma_sums_cons(net, old[0], tail);
+    lemma_sums_cons(net, s, tail);
+    lemma_tour_kinds(t, 0);
+    lemma_tour_kinds(t, 1);
+    lemma_depot_zero(net, old[0]);
+    lemma_depot_zero(net, s);
+    assert(net.has(old[0]) && net.has(old[1]));
+    assert(tail[0] == old[1]);
+    lemma_leg_facts(net, old[0], old[1]);
+    lemma_leg_facts(net, s, old[1]);
+}
+
+// ---- A-im (NEW): `get_mut` of im::HashMap ------------------------------------------------------------------
+impl<K, V> self::im::HashMap<K, V> {
+    /// im: `get_mut<BK>(&mut self, key: &BK) -> Option<&mut V>`: "Get a mutable reference to the value for a key from a
+    /// hash map."  A reference INTO the map (the map is persistent: the entry is copied on write): when the borrow ends the
+    /// map is the old one with the key bound to the final value of the reference; an absent key leaves the map alone.
+    #[verifier::external_body]
+    pub fn get_mut(&mut self, key: &K) -> (r: Option<&mut V>)
+        ensures
+            old(self)@.contains_key(*key) ==> r is Some && *r->Some_0 == old(self)@[*key] && final(self)@ == old(self)@.insert(*key, *final(r->Some_0)),
+            !old(self)@.contains_key(*key) ==> r is None && final(self)@ == old(self)@,
+    { unimplemented!() }
+}
+
+impl Schedule {
+    /// the depot where the tour of v starts / ends in this schedule (text as in slices/depot_usage.vs)
+    pub open spec fn start_depot_of(&self, v: VehicleIdx) -> DepotIdx { sp_depot_idx_of(&self.network, sp_start_depot(&self.tours@[v])) }
+    pub open spec fn end_depot_of(&self, v: VehicleIdx) -> DepotIdx { sp_depot_idx_of(&self.network, sp_end_depot(&self.tours@[v])) }
+}
+/// both depot nodes of a real tour of the network are depot nodes of the network (text as in slices/depot_usage.vs)
+pub proof fn lemma_tour_depots(net: &Network, t: &Tour)
+    requires tour_of_net(net, t),
+    ensures
+        net.has(sp_start_depot(t)) && net.sp_node(sp_start_depot(t)).sp_is_depot(),
+        net.has(sp_end_depot(t)) && net.sp_node(sp_end_depot(t)).sp_is_depot(),
+{
+    assert(t.network.has(t.nodes@[0]));
+    assert(t.network.has(t.nodes@[t.nodes@.len() - 1]));
+}
+
+/// one more listed vehicle is done
+pub proof fn lemma_done_step(rc: Seq<VehicleIdx>, k: int)
+    requires 0 <= k < rc.len(),
+    ensures
+        forall|x: VehicleIdx| #[trigger] done(rc, k + 1, x) <==> (done(rc, k, x) || x == rc[k]),
+        rc.no_duplicates() ==> !done(rc, k, rc[k]),
+{
+    assert forall|x: VehicleIdx| #[trigger] done(rc, k + 1, x) <==> (done(rc, k, x) || x == rc[k]) by {
+        if done(rc, k + 1, x) {
+            let j = choose|j: int| 0 <= j < k + 1 && #[trigger] rc[j] == x;
+            if j < k { assert(done(rc, k, x)); }
+        }
+        if done(rc, k, x) {
+            let j = choose|j: int| 0 <= j < k && #[trigger] rc[j] == x;
+            assert(0 <= j < k + 1 && rc[j] == x);
+        }
+        if x == rc[k] { assert(0 <= k < k + 1 && rc[k] == x); }
+    }
+    if rc.no_duplicates() && done(rc, k, rc[k]) {
+        let j = choose|j: int| 0 <= j < k && #[trigger] rc[j] == rc[k];
+        assert(rc[j] == rc[k]);
+    }
+}
+/// all listed vehicles are done at the end
+pub proof fn lemma_done_all(rc: Seq<VehicleIdx>)
+    ensures forall|x: VehicleIdx| #[trigger] done(rc, rc.len() as int, x) <==> rc.contains(x),
+{
+    let n = rc.len() as int;
+    assert forall|x: VehicleIdx| #[trigger] done(rc, n, x) <==> rc.contains(x) by {
+        if done(rc, n, x) {
+            let j = choose|j: int| 0 <= j < n && #[trigger] rc[j] == x;
+            assert(rc[j] == x);
+        }
+        if rc.contains(x) {
+            let j = choose|j: int| 0 <= j < rc.len() && rc[j] == x;
+            assert(0 <= j < n && rc[j] == x);
+        }
+    }
+}
+
+// ---- first loop of improve_depots: the listed vehicles leave the table -----------------------------------------
+/// the spawned sets are those of du0 without the first ks listed vehicles, the despawned sets those of du0 without the
+/// first ke listed vehicles
+pub open spec fn usage_minus(du0: UsageMap, du: UsageMap, ids: Seq<VehicleIdx>, ks: int, ke: int) -> bool {
+    &&& forall|d: DepotIdx, vt: VehicleTypeIdx, u: VehicleIdx| (#[trigger] sp_spawned(du, d, vt).contains(u)) <==> (sp_spawned(du0, d, vt).contains(u) && !done(ids, ks, u))
+    &&& forall|d: DepotIdx, vt: VehicleTypeIdx, u: VehicleIdx| (#[trigger] sp_despawned(du, d, vt).contains(u)) <==> (sp_despawned(du0, d, vt).contains(u) && !done(ids, ke, u))
+}
+/// `.get_mut(&(start depot, type)).unwrap().0.remove(vehicle_id).unwrap()`: the entry exists and holds the vehicle
+pub proof fn lemma_rm_spawn_pre(s: &Schedule, du: UsageMap, ids: Seq<VehicleIdx>, k: int)
+    requires
+        s.dp_ok(), ids.no_duplicates(), 0 <= k < ids.len(), s.tours@.contains_key(ids[k]),
+        usage_minus(s.depot_usage@, du, ids, k, k),
+    ensures
+        du.contains_key((s.start_depot_of(ids[k]), s.type_of(ids[k]))),
+        du[(s.start_depot_of(ids[k]), s.type_of(ids[k]))].0@.contains(ids[k]),
+{
+    let v = ids[k];
+    let d = s.start_depot_of(v);
+    let vt = s.type_of(v);
+    lemma_done_step(ids, k);
+    assert(s.dp_vehicle_ok(v));
+    assert(usage_exact_for(s.depot_usage@, &s.network, s.vehicles@, s.tours@, v));
+    assert(starts_at(&s.network, s.vehicles@, s.tours@, v, d, vt));
+    assert(sp_spawned(s.depot_usage@, d, vt).contains(v));
+    assert(sp_spawned(du, d, vt).contains(v));
+}
+/// ... afterwards the vehicle is in no spawned set
+pub proof fn lemma_rm_spawn_post(s: &Schedule, du: UsageMap, du1: UsageMap, ids: Seq<VehicleIdx>, k: int)
+    requires
+        s.dp_ok(), ids.no_duplicates(), 0 <= k < ids.len(), s.tours@.contains_key(ids[k]),
+        usage_minus(s.depot_usage@, du, ids, k, k),
+        ({
+            let key = (s.start_depot_of(ids[k]), s.type_of(ids[k]));
+            du.contains_key(key) && du1 == du.insert(key, du1[key]) && du1[key].0@ == du[key].0@.remove(ids[k]) && du1[key].1@ == du[key].1@
+        }),
+    ensures usage_minus(s.depot_usage@, du1, ids, k + 1, k),
+{
+    let du0 = s.depot_usage@;
+    let v = ids[k];
+    let key = (s.start_depot_of(v), s.type_of(v));
+    lemma_done_step(ids, k);
+    assert(usage_exact_for(du0, &s.network, s.vehicles@, s.tours@, v));
+    assert forall|d: DepotIdx, vt: VehicleTypeIdx, u: VehicleIdx| (#[trigger] sp_spawned(du1, d, vt).contains(u)) <==> (sp_spawned(du0, d, vt).contains(u) && !done(ids, k + 1, u)) by {
+        assert(sp_spawned(du, d, vt).contains(u) <==> (sp_spawned(du0, d, vt).contains(u) && !done(ids, k, u)));
+        assert(done(ids, k + 1, u) <==> (done(ids, k, u) || u == v));
+        if (d, vt) != key {
+            assert(du1.contains_key((d, vt)) <==> du.contains_key((d, vt)));
+            assert(sp_spawned(du0, d, vt).contains(v) <==> starts_at(&s.network, s.vehicles@, s.tours@, v, d, vt));
+        }
+    }
+    assert forall|d: DepotIdx, vt: VehicleTypeIdx, u: VehicleIdx| (#[trigger] sp_despawned(du1, d, vt).contains(u)) <==> (sp_despawned(du0, d, vt).contains(u) && !done(ids, k, u)) by {
+        assert(sp_despawned(du, d, vt).contains(u) <==> (sp_despawned(du0, d, vt).contains(u) && !done(ids, k, u)));
+        if (d, vt) != key { assert(du1.contains_key((d, vt)) <==> du.contains_key((d, vt))); }
+    }
+}
+/// `.get_mut(&(end depot, type)).unwrap().1.remove(vehicle_id).unwrap()`: the entry exists and holds the vehicle
+pub proof fn lemma_rm_despawn_pre(s: &Schedule, du: UsageMap, ids: Seq<VehicleIdx>, k: int)
+    requires
+        s.dp_ok(), ids.no_duplicates(), 0 <= k < ids.len(), s.tours@.contains_key(ids[k]),
+        usage_minus(s.depot_usage@, du, ids, k + 1, k),
+    ensures
+        du.contains_key((s.end_depot_of(ids[k]), s.type_of(ids[k]))),
+        du[(s.end_depot_of(ids[k]), s.type_of(ids[k]))].1@.contains(ids[k]),
+{
+    let v = ids[k];
+    let d = s.end_depot_of(v);
+    let vt = s.type_of(v);
+    lemma_done_step(ids, k);
+    assert(s.dp_vehicle_ok(v));
+    assert(usage_exact_for(s.depot_usage@, &s.network, s.vehicles@, s.tours@, v));
+    assert(ends_at(&s.network, s.vehicles@, s.tours@, v, d, vt));
+    assert(sp_despawned(s.depot_usage@, d, vt).contains(v));
+    assert(sp_despawned(du, d, vt).contains(v));
+}
+/// ... afterwards the vehicle is in no despawned set either
+pub proof fn lemma_rm_despawn_post(s: &Schedule, du: UsageMap, du1: UsageMap, ids: Seq<VehicleIdx>, k: int)
+    requires
+        s.dp_ok(), ids.no_duplicates(), 0 <= k < ids.len(), s.tours@.contains_key(ids[k]),
+        usage_minus(s.depot_usage@, du, ids, k + 1, k),
+        ({
+            let key = (s.end_depot_of(ids[k]), s.type_of(ids[k]));
+            du.contains_key(key) && du1 == du.insert(key, du1[key]) && du1[key].1@ == du[key].1@.remove(ids[k]) && du1[key].0@ == du[key].0@
+        }),
+    ensures usage_minus(s.depot_usage@, du1, ids, k + 1, k + 1),
+{
+    let du0 = s.depot_usage@;
+    let v = ids[k];
+    let key = (s.end_depot_of(v), s.type_of(v));
+    lemma_done_step(ids, k);
+    assert(usage_exact_for(du0, &s.network, s.vehicles@, s.tours@, v));
+    assert forall|d: DepotIdx, vt: VehicleTypeIdx, u: VehicleIdx| (#[trigger] sp_despawned(du1, d, vt).contains(u)) <==> (sp_despawned(du0, d, vt).contains(u) && !done(ids, k + 1, u)) by {
+        assert(sp_despawned(du, d, vt).contains(u) <==> (sp_despawned(du0, d, vt).contains(u) && !done(ids, k, u)));
+        assert(done(ids, k + 1, u) <==> (done(ids, k, u) || u == v));
+        if (d, vt) != key {
+            assert(du1.contains_key((d, vt)) <==> du.contains_key((d, vt)));
+            assert(sp_despawned(du0, d, vt).contains(v) <==> ends_at(&s.network, s.vehicles@, s.tours@, v, d, vt));
+        }
+    }
+    assert forall|d: DepotIdx, vt: VehicleTypeIdx, u: VehicleIdx| (#[trigger] sp_spawned(du1, d, vt).contains(u)) <==> (sp_spawned(du0, d, vt).contains(u) && !done(ids, k + 1, u)) by {
+        assert(sp_spawned(du, d, vt).contains(u) <==> (sp_spawned(du0, d, vt).contains(u) && !done(ids, k + 1, u)));
+        if (d, vt) != key { assert(du1.contains_key((d, vt)) <==> du.contains_key((d, vt))); }
+    }
+}
+
+// ---- second loop of improve_depots: the listed vehicles enter the table at their new depots ----------------------
+/// the vehicle is in no set of the table
+pub open spec fn usage_absent(du: UsageMap, u: VehicleIdx) -> bool {
+    &&& forall|d: DepotIdx, vt: VehicleTypeIdx| !(#[trigger] sp_spawned(du, d, vt)).contains(u)
+    &&& forall|d: DepotIdx, vt: VehicleTypeIdx| !(#[trigger] sp_despawned(du, d, vt)).contains(u)
+}
+impl Schedule {
+    /// the table's entries of vehicle u after the first k listed vehicles have been put back: a listed vehicle that
+    /// is not yet put back is in no set; for everybody else the table is exact w.r.t. the tours built so far
+    pub open spec fn usage_row(&self, du: UsageMap, tours: TourMap, ids: Seq<VehicleIdx>, k: int, u: VehicleIdx) -> bool {
+        if ids.contains(u) && !done(ids, k, u) { usage_absent(du, u) } else { usage_exact_for(du, &self.network, self.vehicles@, tours, u) }
+    }
+    pub open spec fn usage_partial(&self, du: UsageMap, tours: TourMap, ids: Seq<VehicleIdx>, k: int) -> bool {
+        forall|u: VehicleIdx| #[trigger] self.usage_row(du, tours, ids, k, u)
+    }
+}
+/// after the first loop: all listed vehicles are out, everybody else is where the (exact) old table has them
+pub proof fn lemma_partial_init(s: &Schedule, du: UsageMap, ids: Seq<VehicleIdx>)
+    requires
+        usage_exact(s.depot_usage@, &s.network, s.vehicles@, s.tours@),
+        usage_minus(s.depot_usage@, du, ids, ids.len() as int, ids.len() as int),
+    ensures s.usage_partial(du, s.tours@, ids, 0),
+{
+    let du0 = s.depot_usage@;
+    lemma_done_all(ids);
+    assert forall|u: VehicleIdx| #[trigger] s.usage_row(du, s.tours@, ids, 0, u) by {
+        assert(done(ids, ids.len() as int, u) <==> ids.contains(u));
+        assert(usage_exact_for(du0, &s.network, s.vehicles@, s.tours@, u));
+        if ids.contains(u) {
+            assert(!done(ids, 0, u));
+            assert forall|d: DepotIdx, vt: VehicleTypeIdx| !(#[trigger] sp_spawned(du, d, vt)).contains(u) by {
+                assert(sp_spawned(du, d, vt).contains(u) <==> (sp_spawned(du0, d, vt).contains(u) && !done(ids, ids.len() as int, u)));
+            }
+            assert forall|d: DepotIdx, vt: VehicleTypeIdx| !(#[trigger] sp_despawned(du, d, vt)).contains(u) by {
+                assert(sp_despawned(du, d, vt).contains(u) <==> (sp_despawned(du0, d, vt).contains(u) && !done(ids, ids.len() as int, u)));
+            }
+        } else {
+            assert forall|d: DepotIdx, vt: VehicleTypeIdx| (#[trigger] sp_spawned(du, d, vt)).contains(u) <==> starts_at(&s.network, s.vehicles@, s.tours@, u, d, vt) by {
+                assert(sp_spawned(du, d, vt).contains(u) <==> (sp_spawned(du0, d, vt).contains(u) && !done(ids, ids.len() as int, u)));
+            }
+            assert forall|d: DepotIdx, vt: VehicleTypeIdx| (#[trigger] sp_despawned(du, d, vt)).contains(u) <==> ends_at(&s.network, s.vehicles@, s.tours@, u, d, vt) by {
+                assert(sp_despawned(du, d, vt).contains(u) <==> (sp_despawned(du0, d, vt).contains(u) && !done(ids, ids.len() as int, u)));
+            }
+        }
+    }
+}
+/// `.entry(key).or_insert((HashSet::new(), HashSet::new())).0.insert(v)`: v enters the spawned set of `key`, nothing else changes
+pub proof fn lemma_add_spawn(du: UsageMap, du1: UsageMap, key: (DepotIdx, VehicleTypeIdx), v: VehicleIdx)
+    requires
+        du1 == du.insert(key, du1[key]),
+        du1[key].0@ == sp_spawned(du, key.0, key.1).insert(v),
+        du1[key].1@ == sp_despawned(du, key.0, key.1),
+    ensures
+        forall|d: DepotIdx, vt: VehicleTypeIdx| #[trigger] sp_spawned(du1, d, vt) == (if (d, vt) == key { sp_spawned(du, d, vt).insert(v) } else { sp_spawned(du, d, vt) }),
+        forall|d: DepotIdx, vt: VehicleTypeIdx| #[trigger] sp_despawned(du1, d, vt) == sp_despawned(du, d, vt),
+{
+    assert forall|d: DepotIdx, vt: VehicleTypeIdx| #[trigger] sp_spawned(du1, d, vt) == (if (d, vt) == key { sp_spawned(du, d, vt).insert(v) } else { sp_spawned(du, d, vt) }) by {
+        if (d, vt) != key { assert(du1.contains_key((d, vt)) <==> du.contains_key((d, vt))); }
+    }
+    assert forall|d: DepotIdx, vt: VehicleTypeIdx| #[trigger] sp_despawned(du1, d, vt) == sp_despawned(du, d, vt) by {
+        if (d, vt) != key { assert(du1.contains_key((d, vt)) <==> du.contains_key((d, vt))); }
+    }
+}
+/// `.entry(key).or_insert((HashSet::new(), HashSet::new())).1.insert(v)`: v enters the despawned set of `key`, nothing else changes
+pub proof fn lemma_add_despawn(du: UsageMap, du1: UsageMap, key: (DepotIdx, VehicleTypeIdx), v: VehicleIdx)
+    requires
+        du1 == du.insert(key, du1[key]),
+        du1[key].1@ == sp_despawned(du, key.0, key.1).insert(v),
+        du1[key].0@ == sp_spawned(du, key.0, key.1),
+    ensures
+        forall|d: DepotIdx, vt: VehicleTypeIdx| #[trigger] sp_despawned(du1, d, vt) == (if (d, vt) == key { sp_despawned(du, d, vt).insert(v) } else { sp_despawned(du, d, vt) }),
+        forall|d: DepotIdx, vt: VehicleTypeIdx| #[trigger] sp_spawned(du1, d, vt) == sp_spawned(du, d, vt),
+{
+    assert forall|d: DepotIdx, vt: VehicleTypeIdx| #[trigger] sp_despawned(du1, d, vt) == (if (d, vt) == key { sp_despawned(du, d, vt).insert(v) } else { sp_despawned(du, d, vt) }) by {
+        if (d, vt) != key { assert(du1.contains_key((d, vt)) <==> du.contains_key((d, vt))); }
+    }
+    assert forall|d: DepotIdx, vt: VehicleTypeIdx| #[trigger] sp_spawned(du1, d, vt) == sp_spawned(du, d, vt) by {
+        if (d, vt) != key { assert(du1.contains_key((d, vt)) <==> du.contains_key((d, vt))); }
+    }
+}
+/// one step of the second loop: the k-th listed vehicle v got the tour nt and was put into the spawned set of its new
+/// start depot and the despawned set of its new end depot
+pub proof fn lemma_partial_step(s: &Schedule, du: UsageMap, du2: UsageMap, tours: TourMap, ids: Seq<VehicleIdx>, k: int, nt: Tour)
+    requires
+        s.usage_partial(du, tours, ids, k), ids.no_duplicates(), 0 <= k < ids.len(), s.vehicles@.contains_key(ids[k]),
+        ({
+            let v = ids[k];
+            let ks = (sp_depot_idx_of(&s.network, sp_start_depot(&nt)), s.type_of(v));
+            let ke = (sp_depot_idx_of(&s.network, sp_end_depot(&nt)), s.type_of(v));
+            &&& forall|d: DepotIdx, vt: VehicleTypeIdx| #[trigger] sp_spawned(du2, d, vt) == (if (d, vt) == ks { sp_spawned(du, d, vt).insert(v) } else { sp_spawned(du, d, vt) })
+            &&& forall|d: DepotIdx, vt: VehicleTypeIdx| #[trigger] sp_despawned(du2, d, vt) == (if (d, vt) == ke { sp_despawned(du, d, vt).insert(v) } else { sp_despawned(du, d, vt) })
+        }),
+    ensures s.usage_partial(du2, tours.insert(ids[k], nt), ids, k + 1),
+{
+    let v = ids[k];
+    let net = &s.network;
+    let vm = s.vehicles@;
+    let tours2 = tours.insert(v, nt);
+    let ks = (sp_depot_idx_of(net, sp_start_depot(&nt)), s.type_of(v));
+    let ke = (sp_depot_idx_of(net, sp_end_depot(&nt)), s.type_of(v));
+    lemma_done_step(ids, k);
+    assert(ids.contains(v));
+    assert forall|u: VehicleIdx| #[trigger] s.usage_row(du2, tours2, ids, k + 1, u) by {
+        assert(s.usage_row(du, tours, ids, k, u));
+        assert(done(ids, k + 1, u) <==> (done(ids, k, u) || u == v));
+        if u == v {
+            assert(usage_absent(du, v));
+            assert forall|d: DepotIdx, vt: VehicleTypeIdx| (#[trigger] sp_spawned(du2, d, vt)).contains(v) <==> starts_at(net, vm, tours2, v, d, vt) by {
+                assert(!sp_spawned(du, d, vt).contains(v));
+            }
+            assert forall|d: DepotIdx, vt: VehicleTypeIdx| (#[trigger] sp_despawned(du2, d, vt)).contains(v) <==> ends_at(net, vm, tours2, v, d, vt) by {
+                assert(!sp_despawned(du, d, vt).contains(v));
+            }
+        } else if ids.contains(u) && !done(ids, k, u) {
+            assert forall|d: DepotIdx, vt: VehicleTypeIdx| !(#[trigger] sp_spawned(du2, d, vt)).contains(u) by {
+                assert(!sp_spawned(du, d, vt).contains(u));
+            }
+            assert forall|d: DepotIdx, vt: VehicleTypeIdx| !(#[trigger] sp_despawned(du2, d, vt)).contains(u) by {
+                assert(!sp_despawned(du, d, vt).contains(u));
+            }
+        } else {
+            assert(usage_exact_for(du, net, vm, tours, u));
+            assert forall|d: DepotIdx, vt: VehicleTypeIdx| (#[trigger] sp_spawned(du2, d, vt)).contains(u) <==> starts_at(net, vm, tours2, u, d, vt) by {
+                assert(sp_spawned(du, d, vt).contains(u) <==> starts_at(net, vm, tours, u, d, vt));
+            }
+            assert forall|d: DepotIdx, vt: VehicleTypeIdx| (#[trigger] sp_despawned(du2, d, vt)).contains(u) <==> ends_at(net, vm, tours2, u, d, vt) by {
+                assert(sp_despawned(du, d, vt).contains(u) <==> ends_at(net, vm, tours, u, d, vt));
+            }
+        }
+    }
+}
+/// after the second loop the table is exact
+pub proof fn lemma_partial_finish(s: &Schedule, du: UsageMap, tours: TourMap, ids: Seq<VehicleIdx>)
+    requires s.usage_partial(du, tours, ids, ids.len() as int),
+    ensures usage_exact(du, &s.network, s.vehicles@, tours),
+{
+    lemma_done_all(ids);
+    assert forall|u: VehicleIdx| #[trigger] usage_exact_for(du, &s.network, s.vehicles@, tours, u) by {
+        assert(s.usage_row(du, tours, ids, ids.len() as int, u));
+        assert(done(ids, ids.len() as int, u) <==> ids.contains(u));
+    }
+}
+
+// ---- costs: the listed vehicles' tours are among all tours -------------------------------------------------------
+/// the sum over a prefix only depends on the prefix
+pub proof fn lemma_pre_costs_seq_frame(tours: TourMap, a: Seq<VehicleIdx>, b: Seq<VehicleIdx>, k: int)
+    requires 0 <= k <= a.len(), k <= b.len(), forall|j: int| 0 <= j < k ==> a[j] == b[j],
+    ensures pre_costs(tours, a, k) == pre_costs(tours, b, k),
+    decreases k,
+{
+    if k > 0 { lemma_pre_costs_seq_frame(tours, a, b, k - 1); }
+}
+/// taking one vehicle out of the list takes its tour's costs out of the sum
+pub proof fn lemma_pre_costs_remove(tours: TourMap, s: Seq<VehicleIdx>, p: int)
+    requires 0 <= p < s.len(),
+    ensures pre_costs(tours, s, s.len() as int) == pre_costs(tours, s.remove(p), s.len() - 1) + tours[s[p]].costs,
+    decreases s.len(),
+{
+    let n = s.len() as int;
+    let r = s.remove(p);
+    if p == n - 1 {
+        lemma_pre_costs_seq_frame(tours, s, r, n - 1);
+    } else {
+        let s1 = s.drop_last();
+        lemma_pre_costs_remove(tours, s1, p);
+        lemma_pre_costs_seq_frame(tours, s, s1, n - 1);
+        assert(s1.remove(p) =~= r.drop_last());
+        lemma_pre_costs_seq_frame(tours, r, s1.remove(p), n - 2);
+        assert(r[n - 2] == s[n - 1]);
+    }
+}
+/// C09: a duplicate-free list of vehicles that are all among the (duplicate-free) list vs: their tours' costs are part
+/// of the costs of all tours
+pub proof fn lemma_sub_costs(tours: TourMap, ids: Seq<VehicleIdx>, vs: Seq<VehicleIdx>)
+    requires ids.no_duplicates(), forall|i: int| 0 <= i < ids.len() ==> vs.contains(#[trigger] ids[i]),
+    ensures pre_costs(tours, ids, ids.len() as int) <= pre_costs(tours, vs, vs.len() as int),
+    decreases ids.len(),
+{
+    let n = ids.len() as int;
+    if n == 0 {
+        lemma_pre_costs_mono(tours, vs, 0, vs.len() as int);
+    } else {
+        let x = ids[n - 1];
+        let ids1 = ids.drop_last();
+        assert(vs.contains(ids[n - 1]));
+        let q = choose|q: int| 0 <= q < vs.len() && vs[q] == x;
+        let vs1 = vs.remove(q);
+        assert forall|i: int| 0 <= i < ids1.len() implies vs1.contains(#[trigger] ids1[i]) by {
+            assert(ids1[i] == ids[i]);
+            assert(ids[i] != ids[n - 1]);
+            assert(vs.contains(ids[i]));
+            let j = choose|j: int| 0 <= j < vs.len() && vs[j] == ids[i];
+            if j < q { assert(vs1[j] == ids[i]); } else { assert(vs1[j - 1] == ids[i]); }
+        }
+        assert(ids1.no_duplicates());
+        lemma_sub_costs(tours, ids1, vs1);
+        lemma_pre_costs_remove(tours, vs, q);
+        lemma_pre_costs_seq_frame(tours, ids, ids1, n - 1);
+    }
+}
+
+// ---- improve_depots: contract vocabulary --------------------------------------------------------------------------
+impl Schedule {
+    /// C13: what improve_depots does to the tour of vehicle v: a listed vehicle keeps all its activities in order, only its
+    /// depots may differ; every other vehicle keeps its tour
+    pub open spec fn depots_improved(&self, ids: Seq<VehicleIdx>, v: VehicleIdx, t: Tour) -> bool {
+        if ids.contains(v) { depots_replaced(&self.network, &self.tours@[v], &t) && same_activities(&self.tours@[v], &t) } else { t == self.tours@[v] }
+    }
+    /// the tour maps improve_depots can produce for the listed vehicles
+    pub open spec fn all_depots_improved(&self, ids: Seq<VehicleIdx>, t: Map<VehicleIdx, Tour>) -> bool {
+        t.dom() == self.tours@.dom() && forall|v: VehicleIdx| #[trigger] self.tours@.contains_key(v) ==> self.depots_improved(ids, v, t[v])
+    }
+    /// "Assumes that vehicle are real vehicle in schedule.  Panics if a vehicle is not a real vehicle": the listed vehicles
+    /// are vehicles of the schedule (with a tour), and no vehicle is listed twice (the second `.remove(vehicle_id).unwrap()`
+    /// of the first loop would panic; update_transitions_and_violation_fast assumes it, too)
+    pub open spec fn listed_ok(&self, ids: Seq<VehicleIdx>) -> bool {
+        &&& ids.no_duplicates()
+        &&& ids.len() <= max_vehicles()
+        &&& forall|i: int| 0 <= i < ids.len() ==> self.tours@.contains_key(#[trigger] ids[i])
+    }
+    /// C15 / C10 / C09 for the rotation cycles, as far as update_transitions_and_violation_fast needs it for n changed
+    /// vehicles (the clauses of `upd_pre`, env/sched_guard_shim.vs, that speak about the old schedule only), plus C10 for
+    /// the ids: a real vehicle has an id of the Vehicle kind, a tour, and a type that has a transition
+    pub open spec fn dp_transitions_ok(&self, n: int) -> bool {
+        let trs = self.next_period_transitions@;
+        let vts = sched_types(self);
+        &&& vts.no_duplicates()
+        &&& forall|vt: VehicleTypeIdx| #[trigger] trs.contains_key(vt) <==> vts.contains(vt)
+        &&& forall|vt: VehicleTypeIdx| #[trigger] trs.contains_key(vt) ==> trs[vt].wf(&self.network, self.tours@)
+        &&& forall|vt: VehicleTypeIdx, v: VehicleIdx| #![trigger trs[vt].has_vehicle(v)] trs.contains_key(vt)
+                ==> (trs[vt].has_vehicle(v) <==> self.vehicles@.contains_key(v) && self.type_of(v) == vt)
+        &&& self.maintenance_violation as int == viol_sum(trs, vts)
+        &&& len_sum(trs, vts) + n <= max_vehicles()
+        &&& forall|v: VehicleIdx| #[trigger] self.vehicles@.contains_key(v) ==> v is Vehicle && self.tours@.contains_key(v) && trs.contains_key(self.type_of(v))
+    }
+    /// A-counter (magnitude): the maintenance counter of whatever tour the depot improvement makes of v's tour is small (the
+    /// counter is an uninterpreted atom of the rotation-cycle vocabulary, env/transition_spec.vs)
+    pub open spec fn dp_counter_ok(&self, v: VehicleIdx) -> bool {
+        forall|t: Tour| depots_replaced(&self.network, &self.tours@[v], &t) ==> -counter_bound() <= #[trigger] tour_counter(&t) <= counter_bound()
+    }
+    /// the postcondition of update_transitions_and_violation_fast (text of its `ensures`, slices/sched_guard.vs)
+    pub open spec fn upd_post(&self, trs0: Map<VehicleTypeIdx, Transition>, trs1: Map<VehicleTypeIdx, Transition>, mv1: int, cv: Seq<VehicleIdx>,
+        vehicles: Map<VehicleIdx, Vehicle>, tours: Map<VehicleIdx, Tour>) -> bool {
+        &&& forall|vt: VehicleTypeIdx| trs0.contains_key(vt) <==> #[trigger] trs1.contains_key(vt)
+        &&& forall|vt: VehicleTypeIdx| #[trigger] trs1.contains_key(vt) ==> trs1[vt].wf(&self.network, tours)
+        &&& forall|vt: VehicleTypeIdx, v: VehicleIdx| #![trigger trs1[vt].has_vehicle(v)] trs1.contains_key(vt)
+                ==> (trs1[vt].has_vehicle(v) <==> (vehicles.contains_key(v) && vtype(vehicles[v]) == vt))
+        &&& mv1 == viol_sum(trs1, sched_types(self))
+        &&& forall|vt: VehicleTypeIdx| #[trigger] trs1.contains_key(vt) && !self.touches_type(vehicles, cv, vt) ==> trs1[vt] == trs0[vt]
+    }
+}
+/// the precondition of update_transitions_and_violation_fast for the listed vehicles and their improved tours
+pub proof fn lemma_upd_pre_listed(s: &Schedule, ids: Seq<VehicleIdx>, tours: TourMap)
+    requires
+        s.dp_ok(), s.listed_ok(ids), s.dp_transitions_ok(ids.len() as int),
+        forall|i: int| 0 <= i < ids.len() ==> s.dp_counter_ok(#[trigger] ids[i]),
+        tours.dom() == s.tours@.dom(),
+        forall|v: VehicleIdx| #[trigger] s.tours@.contains_key(v) ==> s.depots_improved(ids, v, tours[v]),
+    ensures
+        s.upd_pre(s.next_period_transitions@, s.maintenance_violation as int, ids, s.vehicles@, tours),
+{
+    let trs = s.next_period_transitions@;
+    let vm = s.vehicles@;
+    assert forall|i: int| 0 <= i < ids.len() && (#[trigger] ids[i]) is Vehicle implies s.change_ok(trs, vm, tours, ids[i]) by {
+        let v = ids[i];
+        assert(s.tours@.contains_key(v));
+        assert(s.dp_vehicle_ok(v));
+        assert(ids.contains(v));
+        assert(s.depots_improved(ids, v, tours[v]));
+        assert(s.dp_counter_ok(v));
+        assert(tours.contains_key(v));
+        assert(tour_ok(&s.network, &tours[v]));
+    }
+    assert forall|v: VehicleIdx| !real_in(ids, v) && #[trigger] vm.contains_key(v) implies tours.contains_key(v) && tours[v] == s.tours@[v] by {
+        assert(v is Vehicle && s.tours@.contains_key(v));
+        assert(s.depots_improved(ids, v, tours[v]));
+    }
+    assert forall|i: int, j: int| 0 <= i < j < ids.len() && ids[i] is Vehicle implies #[trigger] ids[i] != #[trigger] ids[j] by {}
+}
+
+/// what the recomputation needs of the tours is only that the listed ids have one: a tour map with the same keys does
+pub proof fn lemma_rc_base_same_keys(s: &Schedule, t1: TourMap, t2: TourMap, list: Seq<VehicleTypeIdx>)
+    requires
+        s.rc_base(s.next_period_transitions@, s.maintenance_violation as int, s.vehicle_ids_grouped_and_sorted@, t1, list),
+        t1.dom() == t2.dom(),
+    ensures
+        s.rc_base(s.next_period_transitions@, s.maintenance_violation as int, s.vehicle_ids_grouped_and_sorted@, t2, list),
+{
+    let ids = s.vehicle_ids_grouped_and_sorted@;
+    assert forall|i: int, j: int| 0 <= i < list.len() && 0 <= j < ids[list[i]]@.len() implies t2.contains_key(#[trigger] ids[#[trigger] list[i]]@[j]) by {
+        assert(t1.contains_key(ids[list[i]]@[j]));
+        assert(t1.dom().contains(ids[list[i]]@[j]));
+    }
 }
